@@ -5,9 +5,12 @@ A *case* is a JSON-able description, independent of pymoca and of the Lean model
     {"stream": "flat" | "hier" | "hier-open",
      "ctypes": {"P0": [["v0", []], ["i0", ["flow"]], ...]},           connector classes, variables in declaration order
      "models": [{"name": "M0",
-                 "decl": [["a", "P0", "conn"], ["r", "M0", "comp"], ...], declarations in order
+                 "decl": [["a", "P0", "conn"], ["r", "M0", "comp"], ["q", "M0", "comp", [2, 3]], ...], declarations in order;
+                                                                         an optional 4th entry = dimensions of an array of components
                  "body": [{"eq": {"terms": [[2, "a.v0"], [-1, "b.i0"]], "const": 3}},
-                          {"connect": [["a"], ["r", "b"]]}, ...]},      equation section in order
+                          {"connect": [["a"], ["r", "b"]]}, {"connect": [["q[1,2]", "b"], ["q[2,1]", "a"]]}, ...]},
+                                                                         equation section in order; an element of an array of
+                                                                         components is the path part `name[i,j]` (literal subscripts)
                 ...],                                                   a model only instantiates earlier models
      "top": "T"}                                                       name of the last model
 
@@ -65,8 +68,8 @@ def render(case):
         out.append("end %s;" % pkg)
     for m in case["models"]:
         out.append("model %s" % m["name"])
-        for n, t, _k in m["decl"]:
-            out.append("  %s %s;" % (t, n))
+        for d in m["decl"]:
+            out.append("  %s %s%s;" % (d[1], d[0], "[%s]" % ",".join(map(str, d[3])) if len(d) > 3 and d[3] else ""))
         if m["body"]:
             out.append("equation")
         for it in m["body"]:
@@ -88,6 +91,27 @@ def var_kind(prefixes):
     return "pot"
 
 
+# ---- arrays of components ---------------------------------------------------------------------
+def dims_of(d):
+    return list(d[3]) if len(d) > 3 and d[3] else []
+
+
+def index_tuples(dims):
+    """All subscript tuples of an array with the given dimensions, row-major, 1-based; [()] for a scalar."""
+    out = [()]
+    for n in dims:
+        out = [t + (i,) for t in out for i in range(1, n + 1)]
+    return out
+
+
+def elem(name, idx):
+    return name + ("[%s]" % ",".join(map(str, idx)) if idx else "")
+
+
+def base(part):
+    return part.split("[", 1)[0]
+
+
 # ---- reference instantiation ------------------------------------------------------------------
 class Inst:
     def __init__(self):
@@ -104,7 +128,8 @@ def instantiate(case):
     inst = Inst()
 
     def walk(m, prefix):
-        for n, t, k in m["decl"]:
+        for d in m["decl"]:
+            n, t, k = d[0], d[1], d[2]
             if k == "conn":
                 flat = prefix + n
                 inst.conns.append((flat, t, prefix == ""))
@@ -112,7 +137,9 @@ def instantiate(case):
                     kind = var_kind(prefixes)
                     (inst.flows if kind == "flow" else inst.pots if kind == "pot" else inst.skips).append(flat + SEP + vn)
             else:
-                walk(models[t], prefix + n + SEP)
+                # an array of components is its elements, each instantiated like a scalar component
+                for idx in index_tuples(dims_of(d)):
+                    walk(models[t], prefix + elem(n, idx) + SEP)
         for it in m["body"]:
             if "eq" in it:
                 f = {}
@@ -134,7 +161,7 @@ def instantiate(case):
 def conn_type(case, models, m, path):
     cur = m
     for i, part in enumerate(path):
-        d = [x for x in cur["decl"] if x[0] == part][0]
+        d = [x for x in cur["decl"] if x[0] == base(part)][0]
         if d[2] == "conn":
             return d[1]
         cur = models[d[1]]
@@ -242,13 +269,15 @@ def nodes_of(case_models, m):
     """Connector paths referable from inside model m, by connector type."""
     models = {x["name"]: x for x in case_models}
     out = {}
-    for n, t, k in m["decl"]:
+    for d in m["decl"]:
+        n, t, k = d[0], d[1], d[2]
         if k == "conn":
             out.setdefault(t, []).append([n])
         else:
-            for n2, t2, k2 in models[t]["decl"]:
-                if k2 == "conn":
-                    out.setdefault(t2, []).append([n, n2])
+            for idx in index_tuples(dims_of(d)):
+                for d2 in models[t]["decl"]:
+                    if d2[2] == "conn":
+                        out.setdefault(d2[1], []).append([elem(n, idx), d2[0]])
     return out
 
 
@@ -355,10 +384,120 @@ def close_open(rng, case):
         # the enclosing class of the instance parts[-2] is reached by walking parts[:-2] from the top
         cur = models[case["top"]]
         for p in parts[:-2]:
-            cur = models[[d for d in cur["decl"] if d[0] == p][0][1]]
+            cur = models[[d for d in cur["decl"] if d[0] == base(p)][0][1]]
         path = parts[-2:]
         ctype = conn_type(case, models, cur, path)
         peers = [n for n in nodes_of(case["models"], cur).get(ctype, []) if n != path]
         other = rng.choice(peers) if peers and rng.random() < 0.8 else path
         cur["body"].append({"connect": [path, other] if rng.random() < 0.5 else [other, path]})
     return False
+
+
+# ---- arrays of components (streams "array", "array-open") ---------------------------------------
+# Shapes of arrays of components: mostly two dimensions, some three, some one; at most 8 elements.
+ARRAY_SHAPES = [[2, 2], [2, 3], [3, 2], [1, 3], [3, 1], [2, 2], [2, 3], [1, 2], [2, 4], [4, 2],
+                [2, 2, 2], [1, 2, 2], [2, 1, 2], [2, 2, 1], [1, 2, 3], [1, 1, 2],
+                [2], [3], [4]]
+
+
+def array_groups(case):
+    """{(array component name, connector name): [paths of all its elements]} of the top model."""
+    models = {m["name"]: m for m in case["models"]}
+    out = {}
+    for d in models[case["top"]]["decl"]:
+        if d[2] == "comp" and dims_of(d):
+            for d2 in models[d[1]]["decl"]:
+                if d2[2] == "conn":
+                    out[(d[0], d2[0])] = [[elem(d[0], idx), d2[0]] for idx in index_tuples(dims_of(d))]
+    return out
+
+
+def partial_arrays(case):
+    """Connectors of arrays of components of which some, but not all, elements occur in a connect clause."""
+    models = {m["name"]: m for m in case["models"]}
+    touched = set()
+    for it in models[case["top"]]["body"]:
+        if "connect" in it:
+            for end in it["connect"]:
+                touched.add(tuple(end))
+    out = []
+    for key, paths in sorted(array_groups(case).items()):
+        n = sum(1 for p in paths if tuple(p) in touched)
+        if 0 < n < len(paths):
+            out.append(key)
+    return out
+
+
+def _gen_array_case(rng, stream):
+    """A top model over leaf components of which at least one is an array of components with literal
+    subscripts in the connect clauses.  Stream `array`: every connector of an array of components is
+    connected in all of its elements or in none (added clauses close the gaps, pairing untouched
+    elements with each other or with any peer).  Stream `array-open`: at least one such connector is
+    connected in some elements only."""
+    cts = gen_ctypes(rng)
+    leaves = [gen_leaf(rng, cts, "L%d" % i) for i in range(rng.randint(1, 2))]
+    n_out, n_comp = rng.choice([0, 0, 1, 2]), rng.randint(1, 3)
+    top, used = gen_composite(rng, cts, leaves, "T", n_out, n_comp)
+    comps = [d for d in top["decl"] if d[2] == "comp"]
+    budget = 12
+    for j, d in enumerate(comps):
+        if j == 0 or rng.random() < 0.4:
+            shape = list(rng.choice(ARRAY_SHAPES))
+            n = 1
+            for x in shape:
+                n *= x
+            if n <= budget:
+                d.append(shape)
+                budget -= n
+    # the connect clauses are drawn afresh over the element-wise node lists
+    by_type = nodes_of(leaves, top)
+    edges, used = [], []
+    for t in sorted(by_type):
+        pool = list(by_type[t])
+        for _ in range(rng.choice([1, 2, 2, 3])):
+            fam = rng.choice(FAMILIES)
+            used.append(fam)
+            edges += fragments(rng, pool, fam)
+    if rng.random() < 0.3:
+        rng.shuffle(edges)
+    plain = [it for it in top["body"] if "eq" in it]
+    top["body"] = [{"connect": e} for e in edges]
+    for it in plain:
+        top["body"].insert(rng.randrange(len(top["body"]) + 1), it)
+    case = {"stream": stream, "ctypes": cts, "models": leaves + [top], "top": "T", "families": used}
+    if stream == "array-open":
+        return case if partial_arrays(case) else None
+    models = {m["name"]: m for m in case["models"]}
+    groups = array_groups(case)
+    for _ in range(8):
+        todo_keys = partial_arrays(case)
+        if not todo_keys:
+            break
+        key = todo_keys[0]
+        touched = set(tuple(end) for it in top["body"] if "connect" in it for end in it["connect"])
+        todo = [p for p in groups[key] if tuple(p) not in touched]
+        rng.shuffle(todo)
+        ctype = conn_type(case, models, top, todo[0])
+        while todo:
+            a = todo.pop()
+            r = rng.random()
+            if todo and r < 0.5:
+                b = todo.pop()                 # two untouched elements form a set of their own
+            elif r < 0.9:
+                b = rng.choice(by_type[ctype])  # any peer (possibly the element itself)
+            else:
+                b = a
+            e = [list(a), list(b)] if rng.random() < 0.5 else [list(b), list(a)]
+            top["body"].insert(rng.randrange(len(top["body"]) + 1), {"connect": e})
+    if partial_arrays(case):
+        return None
+    if not any("connect" in it and any("[" in end[0] for end in it["connect"]) for it in top["body"]):
+        return None
+    return case
+
+
+def gen_array_case(rng, stream="array"):
+    while True:
+        c = _gen_array_case(rng, stream)
+        if c is not None:
+            return c
